@@ -221,10 +221,7 @@ func runC11Case(cfg Cfg, base []Op, healthy *vfs.FS, model *Model, uuids []strin
 	if dir == "" {
 		return nil
 	}
-	ext := cfg.Ext
-	if ext == "" {
-		ext = ".json"
-	}
+	ext := cfg.BaseExt()
 	if cfg.Compress {
 		ext += ".gz"
 	}
